@@ -152,5 +152,19 @@ def campaign(ctx):
                         ctx.ev()
                         body({"type": {"k": "con", "o": o, "c": c, "m": "annotate"}, "value": v, "options": {}, "entry": "call" if idx % 2 else "schema"})
     ctx.extra["digits_grid_exhaustive"] = True
+    # rules checked only by `contains`, alone and as a member of Optional / Union: enumerated completely
+    CI = {"k": "con", "o": "list", "c": {}, "contains": {"k": "leaf", "o": "int"}, "m": "class"}
+    CP = {"k": "con", "o": "tuple", "c": {}, "contains": {"k": "con", "o": "int", "c": {"gt": 0}}, "min_contains": 2, "m": "annotate"}
+    for rule in (CI, CP):
+        for spec in (rule, {"k": "opt", "a": rule, "m": "annotate"}, {"k": "union", "a": [rule, {"k": "leaf", "o": "none"}], "m": "annotate"},
+                     {"k": "union", "a": [{"k": "leaf", "o": "str"}, rule], "m": "typing"}):
+            for vals in (["a", "b"], [], [1], ["1", "x"], [1, 2, "a"], [0, -1], ["a"]):
+                for cont in ("list", "tuple"):
+                    for entry in ("call", "schema", "param"):
+                        idx += 1
+                        if idx % ctx.nshards != ctx.shard:
+                            continue
+                        ctx.ev()
+                        body({"type": spec, "value": {"t": cont, "v": vals}, "options": {}, "entry": entry})
     from .c04 import fuzz_tier
     fuzz_tier(ctx, run_case, pid="C01")
